@@ -430,6 +430,41 @@ def replay(w):
     return []
 
 
+COMPILED = ['builtins', '_multibytecodec', 'itertools', '_collections', 'array', 'math', 'zlib', '_struct', 'select', '_thread', '_io', 'unicodedata',
+            '_datetime', '_decimal', '_json', '_pickle', '_random', '_bisect', '_heapq', '_csv', 'binascii', '_hashlib', 'pyexpat', '_elementtree', '_sqlite3',
+            '_lzma', '_bz2', 'mmap', 'grp', 'pwd', '_contextvars', '_asyncio', '_queue', '_statistics', '_zoneinfo', '_ctypes', '_opcode', '_uuid', 'atexit',
+            'gc', 'marshal', 'posix', 'time', 'sys', '_weakref', '_functools', '_operator', '_abc', '_codecs', '_sre', '_string', '_warnings', 'errno', '_locale',
+            '_blake2', '_sha2', '_md5', '_sha1', '_sha3', '_socket', '_ssl', 'fcntl', 'resource', 'termios', '_posixsubprocess', '_tracemalloc', 'cmath', '_struct']
+
+
+def runtime_class_texts():
+    """`import M` / `M.C().x` for every class of the listed compiled modules: supp instantiates runtime classes
+    without arguments to complete on the result, whatever the constructor raises must stay inside"""
+    import importlib
+    for m in COMPILED:
+        try:
+            mod = importlib.import_module(m)
+        except Exception:
+            continue
+        names = sorted(k for k, v in vars(mod).items() if isinstance(v, type) and k.isidentifier())
+        if not names:
+            continue
+        lines = ['import %s' % m] + ['%s.%s().x' % (m, k) for k in names]
+        yield m, '\n'.join(lines) + '\n', [(i + 2, len(l) - 1) for i, l in enumerate(lines[1:])]
+
+
+def unit_runtime(item):
+    m, text, cursors = item
+    part = Part()
+    P = Project([nc.PROJECT_DIR])
+    part.count('evaluations')
+    part.count('texts')
+    for sig, what, wit in run_text(P, text, nc.FILE, 'classes of compiled module ' + m, part, cursors, {'kind': 'text', 'text': text, 'fn': nc.FILE, 'root': nc.PROJECT_DIR}):
+        part.violation(sig, what, wit)
+    part.outcome(('runtime', m))
+    return part
+
+
 def run(ctx):
     ctx.level = 'exploration'
     sys.setrecursionlimit(1000)
@@ -438,6 +473,7 @@ def run(ctx):
     units = [(unit_progs, (ctx.tier, lo, min(len(sp), lo + step))) for lo in range(0, len(sp), step)]
     units += [(unit_degenerate, d) for d in DEGENERATE]
     units += [(unit_project, n) for n in sorted(CYCLIC_PROJECTS)]
+    units += [(unit_runtime, it) for it in runtime_class_texts()]
     repo = sorted([f for f in corpus.repo_files() if not f.endswith('umsgpack.py')], key=os.path.getsize)
     for i, f in enumerate(repo):
         if ctx.quick:
